@@ -334,7 +334,7 @@ impl Property for C15 {
     const ID: &'static str = "C15";
 
     fn rule() -> String {
-        "(i) proptest-generated directory specs with Ref columns (unsigned, and signed SRef, column bound, through Vow/Bound created before any entry is added, to the position of another entry of the same store): forward, backward and self references, chains, constant Ref columns (all rows reference one entry), sorted (1-3 keys) and unsorted stores, 0..600 entries and 2000..6000 entries (parallel sort and parallel index assignment). Oracle: model final positions (independent sort of the distinct keys): the value read back for a Ref column equals the final position of its target (real reader and independent decoder), and every Bound returned by add_entry reports the final position of its entry after finalisation. (ii) forests stored in a store sorted ON the reference itself (key = position of the parent, then a unique name; 1..120 nodes, chains and bushy trees, inserted parents-first, children-first or shuffled): the final order is a fixed point of the creator's re-sort loop, so the oracle is a validity predicate over what was stored: the identities form a permutation, every stored reference equals the final position of the parent, keys are strictly increasing, every Bound reports the final position, binary and linear lookup of (parent position, name) find the entry. Non-trivial = a sorted store in which at least one referenced entry moved from its insertion position; distinct by (graph classes, schema, size).".into()
+        "(i) proptest-generated directory specs with Ref columns (unsigned, and signed SRef, column bound, through Vow/Bound created before any entry is added, to the position of another entry of the same store): forward, backward and self references, chains, constant Ref columns (all rows reference one entry), sorted (1-3 keys) and unsorted stores, 0..600 entries and 2000..6000 entries (parallel sort and parallel index assignment). Oracle: model final positions (independent sort of the distinct keys): the value read back for a Ref column equals the final position of its target (real reader and independent decoder), and every Bound returned by add_entry reports the final position of its entry after finalisation. (ii) forests stored in a store sorted ON the reference itself (key = position of the parent, then a unique name; 1..120 nodes, chains and bushy trees, inserted parents-first, children-first or shuffled): the final order is a fixed point of the creator's re-sort loop, so the oracle is a validity predicate over what was stored: the identities form a permutation, every stored reference equals the final position of the parent, keys are strictly increasing, every Bound reports the final position, binary and linear lookup of (parent position, name) find the entry. Non-trivial = a sorted store in which at least one referenced entry moved from its insertion position; distinct by (graph classes, schema, size). (iii) trees whose roots carry a plain number in the reference column (plain and bound values mixed in one column); (iv) cross-store references: store A sorted on a unique key (1..30000 entries, inserted in order / reversed / shuffled), store B (sorted or not) with a column bound to entries of A (optionally only to entries inserted among the first 200), A added first: every value stored in B equals the final position in A of the entry it was bound to.".into()
     }
 
     fn cases(tier: Tier) -> u32 {
